@@ -1,7 +1,7 @@
 (* Props/C07.v — property C07: tracks do not interfere; intra-tick order is fixed; shared static state agrees.
    Statements about the scheduler model (Sched/Model.v); lemmas in Sched/MergeProofs.v (and Sched/StaticProofs.v
    for the static / globals / current-time patterns). *)
-From Isobar Require Import Base.Prelude Sched.Model Sched.TimeProofs Sched.MergeProofs.
+From Isobar Require Import Base.Prelude Sched.Model Sched.TimeProofs Sched.MergeProofs Sched.Static Sched.StaticProofs.
 
 (** * Order inside one tick *)
 (* For EVERY state and configuration: the calls of one Timeline.tick are
@@ -127,4 +127,48 @@ Proof. vm_compute. repeat split. Qed.
 (* legato: on tick 2 of the example the release of note 60 precedes its new onset *)
 Example C07_legato_nonvacuous :
   nth 2 (tick_calls ex_cfg tl0 ex_h) [] = [CNoteOff 60 0; CNoteOn 60 64 0; CNoteOn 70 64 2].
+Proof. vm_compute. reflexivity. Qed.
+
+(** * Deliberately shared state: PStaticPattern, PGlobals, PCurrentTime (model: Sched/Static.v) *)
+(* any number of reads, by any readers, at any positions before the end of the current element (now - start < duration),
+   return the held value and leave the pattern untouched: the value does not depend on how often it is read *)
+Theorem C07_static_hold : forall f times s st v, sv_start s = Some st -> sv_value s = Some v ->
+  Forall (fun t => t - st < sv_dur s) times ->
+  read_many (S f) times s = (repeat (SVal v) (length times), s).
+Proof. exact static_hold_many. Qed.
+(* all readers at one position see one value: whatever the first read at a position returned, every further read at that
+   position returns the same (element durations > 0; with a zero duration the code itself never returns) *)
+Theorem C07_static_same_time : forall f fuel now s v s', Forall (fun d => 0 < d) (sv_durs s) ->
+  static_read fuel now s = (SVal v, s') -> static_read (S f) now s' = (SVal v, s').
+Proof. exact static_same_time. Qed.
+(* a value is kept for at least its stated duration: the state changes only on a read at now - start >= duration *)
+Theorem C07_static_kept : forall fuel now s r s', static_read fuel now s = (r, s') -> s' <> s ->
+  match sv_start s with None => True | Some st => sv_dur s <= now - st end.
+Proof. exact static_changes_only_at_boundary. Qed.
+(* and such a read (the first one included: nothing held yet) moves to the next element, which starts at that read *)
+Theorem C07_static_advances : forall f now s v vp d dp, expired now s = true -> 0 < d ->
+  seq_next (sv_vals s) (sv_vpos s) (sv_vcyc s) = Some (v, vp) -> seq_next (sv_durs s) (sv_dpos s) true = Some (d, dp) ->
+  static_read (S (S f)) now s = (SVal v, mkStatic (sv_vals s) vp (sv_vcyc s) (sv_durs s) dp (Some v) (Some now) d).
+Proof. exact static_advances. Qed.
+(* PGlobals returns the value of the last assignment to its name, or the given default if there was none *)
+Theorem C07_globals_latest : forall k d sets g,
+  gget k d (fold_left (fun g' kv => gset (fst kv) (snd kv) g') sets g)
+  = match last_set k sets with Some v => v | None => gget k d g end.
+Proof. exact gget_latest. Qed.
+Theorem C07_globals_default : forall k d, gget k d [] = d.
+Proof. exact gget_default. Qed.
+(* PCurrentTime reports the timeline's position rounded to the nearest 10^-5 beat; exactly, where the position is a
+   multiple of 10^-5 beat *)
+Theorem C07_current_time : forall U t, 0 < U ->
+  - U <= 2 * (pcurrent_time U t * U - t * 100000) <= U
+  /\ ((t * 100000) mod U = 0 -> pcurrent_time U t * U = t * 100000).
+Proof. intros U t H. split; [apply r5_nearest; exact H|apply r5_exact; exact H]. Qed.
+
+(* non-vacuity: values 10, 20, 30 held for 1/2 and 1 beat alternately, read every quarter beat by one reader and every
+   three quarters by another (positions in 10^-5 beats), a global set between two reads, the time at tick 7 of 24 per beat *)
+Example C07_static_nonvacuous :
+  run_prog (static0 [10; 20; 30] true [50000; 100000]) []
+    [ARead 0; ARead 0; ARead 25000; ARead 50000; AGet 7 (-1); ASet 7 5; ARead 75000; ARead 75000; AGet 7 (-1);
+     ARead 125000; ARead 150000; ATime 24 7]
+  = [OVal 10; OVal 10; OVal 10; OVal 20; OVal (-1); ONone; OVal 20; OVal 20; OVal 5; OVal 20; OVal 30; OVal 29167].
 Proof. vm_compute. reflexivity. Qed.
